@@ -92,18 +92,34 @@ Definition verdict (c : case) : list nat :=
 (* ---- write/read cycle: the table handed to pharmpy and the table read back through the written
    control stream and csv file; values are compared exactly (both are doubles) *)
 Record cycle_case := mkCycle {
-  y_before : res table;
-  y_after : res table;
-  y_old_opts : list (str * option str);       (* $INPUT of the model before the dataset was replaced *)
-  y_new_cols : list (str * bool);             (* the new datainfo: name, drop *)
-  y_new_opts : list (str * option str)        (* $INPUT of the written model *)
+  y_before : res table;                       (* the in-memory dataset *)
+  y_after : res table;                        (* the dataset read from the written files *)
+  y_old_opts : list (str * option str);       (* $INPUT of the model before *)
+  y_new_cols : list (str * bool);             (* the datainfo that was written: name, drop *)
+  y_new_opts : list (str * option str);       (* $INPUT of the written model *)
+  y_changed : bool;                           (* dataset content, datainfo or path changed before writing *)
+  y_updated : bool;                           (* the dataset content was replaced (or had no path) *)
+  y_force : bool;                             (* write_model(force=...) *)
+  y_renamed_obs : bool;                       (* the written $DATA names another file than the old one *)
+  y_old_data : data_opts;                     (* $DATA of the model before: IGNORE=c token, NULL, lists *)
+  y_new_data : data_opts                      (* $DATA of the written model *)
 }.
 Definition exact_cell (a b : cell) : bool := cell_eqb a b.
 Definition ostr_eqb (a b : option str) : bool :=
   match a, b with Some x, Some y => str_eqb x y | None, None => true | _, _ => false end.
 Definition opts_eqb (a b : list (str * option str)) : bool :=
   list_eqb (fun x y => str_eqb (fst x) (fst y) && ostr_eqb (snd x) (snd y)) a b.
-(* tags 21-24: the property; 25: update_input differs from the model; 218, 219: guard conjuncts *)
+Definition filt_eqb (a b : filt) : bool :=
+  str_eqb (f_col a) (f_col b) && ostr_eqb (f_op a) (f_op b) && str_eqb (f_expr a) (f_expr b).
+Definition on_eqb (a b : option N) : bool :=
+  match a, b with Some x, Some y => N.eqb x y | None, None => true | _, _ => false end.
+Definition data_eqb (a b : data_opts) : bool :=
+  ostr_eqb (d_ignchar a) (d_ignchar b) && on_eqb (d_null a) (d_null b) &&
+  list_eqb filt_eqb (d_ignore a) (d_ignore b) && list_eqb filt_eqb (d_accept a) (d_accept b).
+(* tags 21-24: the property (re-read = in-memory); 25: update_input differs from the model; 26: the RULE — a $DATA
+   record naming a file written from the (already filtered) in-memory dataset still carries an IGNORE/ACCEPT
+   list; 27: the written $DATA record differs from the model of update_source; 28: the file named by $DATA
+   differs from the model of write_files; 218-220: guard conjuncts *)
 Definition cycle_verdict (c : cycle_case) : list nat :=
   match y_before c, y_after c with
   | Ok a, Ok b =>
@@ -113,12 +129,20 @@ Definition cycle_verdict (c : cycle_case) : list nat :=
                         (combine a b)) 23
   | _, _ => [24]
   end ++
-  match column_info (y_old_opts c) with
-  | Ok ci => tag (opts_eqb (update_input_model (y_old_opts c) (ci_drop ci) (y_new_cols c)) (y_new_opts c)) 25
-  | Err _ => []
-  end ++
-  tag (g_no_anon (y_old_opts c) (length (y_new_cols c))) 218 ++
-  tag (g_no_same_dropped (y_old_opts c) (map fst (y_new_cols c))) 219.
+  (if y_changed c then
+     match column_info (y_old_opts c) with
+     | Ok ci => tag (opts_eqb (update_input_model (y_old_opts c) (ci_drop ci) (y_new_cols c)) (y_new_opts c)) 25
+     | Err _ => []
+     end
+   else tag (opts_eqb (y_old_opts c) (y_new_opts c)) 25) ++
+  tag (negb (y_renamed_obs c && negb (is_nil (d_ignore (y_new_data c) ++ d_accept (y_new_data c))))) 26 ++
+  tag (data_eqb (update_data (y_changed c) (map fst (y_new_cols c)) (y_old_data c)) (y_new_data c)) 27 ++
+  tag (Bool.eqb (y_renamed_obs c) (y_changed c && name_follows (y_updated c) (y_force c))) 28 ++
+  (if y_changed c then
+     tag (g_no_anon (y_old_opts c) (length (y_new_cols c))) 218 ++
+     tag (g_no_same_dropped (y_old_opts c) (map fst (y_new_cols c))) 219
+   else []) ++
+  tag (g_renamed (y_changed c) (y_updated c) (y_force c)) 220.
 
 (* ---- exhaustive small-scope ties of the two engine contracts the number and splitter theorems rest on:
    convert against the real convert_fortran_number, resplit o pystrip against the real re.split o str.strip
